@@ -361,7 +361,14 @@ func (x *Exec) equal(t types.Type, a, b Value) *Term {
 		return ts.Bool(isNilFunc(b))
 	case Native:
 		bn, ok := b.(Native)
-		return ts.Bool(ok && a.X == bn.X)
+		if !ok {
+			return ts.F
+		}
+		if ab, isT := a.X.(rtypeBox); isT {
+			bb, isT2 := bn.X.(rtypeBox)
+			return ts.Bool(isT2 && types.Identical(ab.t, bb.t))
+		}
+		return ts.Bool(a.X == bn.X)
 	}
 	x.unsupported(fmt.Sprintf("equal on %T", a))
 	return nil
